@@ -7,6 +7,7 @@ import (
 	"errors"
 	"fmt"
 	"net"
+	"runtime"
 	"sort"
 	"strconv"
 	"strings"
@@ -33,6 +34,9 @@ import (
 //                                            e<hex> raw datagram that B's inner ReadFrom returns with an error
 //   conc <m|u> <seed> <key> <W> <R> <K> <maxlen> <J> one looped-back wrapped socket, W writers x K packets,
 //                                                   R readers, J junk datagrams injected concurrently
+//   duplex <m|u> <seed> <keylen> <N> <maxlen>       one wrapped socket: a receive loop (N valid datagrams from a peer,
+//                                                   built with the PROTOCOL.md reference) and a send loop (N payloads)
+//                                                   run SIMULTANEOUSLY; every packet spec-checked in both directions
 // variants: m = in-memory net.PacketConn, u = in-memory conn that also has SyscallConn/SetReadBuffer/
 // SetWriteBuffer (selects obfsPacketConnUDP), n = a real *net.UDPConn on 127.0.0.1.
 
@@ -247,6 +251,13 @@ func (salComp) Gen(r *vh.RNG, n int, emit func(op string, tags ...string)) {
 		emit("hash "+k, "hash-kat")
 	}
 	for i := len(katKeys); i < n; i++ {
+		// reader-vs-writer soak at fixed positions (6 per 6000 ops, alternating a 16-byte and a
+		// 1 KiB key: the longer hash widens the key-derivation window)
+		if i%1000 == 500 {
+			kl := []int{16, 1024}[(i/1000)%2]
+			emit(fmt.Sprintf("duplex %s %d %d %d %d", []string{"m", "u"}[r.Intn(2)], r.Intn(1<<30), kl, 3000, 48), "duplex")
+			continue
+		}
 		k := r.Intn(1000)
 		switch {
 		case k < 80:
@@ -416,6 +427,8 @@ func (salComp) Run(op string) vh.Result {
 		return runXfer(f)
 	case "conc":
 		return runConc(f)
+	case "duplex":
+		return runDuplex(f)
 	}
 	return vh.Result{Out: "bad-op"}
 }
@@ -963,4 +976,132 @@ func runConc(f []string) vh.Result {
 	}
 	return vh.Result{Out: fmt.Sprintf("conc n=%d dl=%016x", len(got), digest(got)),
 		ModelOp: fmt.Sprintf("conc %s 2048 %s", f[3], listOr(mi)), NonTrivial: nW*K > 0, Oracle: orc}
+}
+
+// ---------------------------------------------------------------- reader against writer
+
+// runDuplex drives what quic-go does to the socket: ONE goroutine in ReadFrom and ONE in
+// WriteTo on the same wrapped socket at the same time. Obfuscate runs under the wrapper's
+// writeMutex and Deobfuscate under its readMutex - different mutexes - while both derive
+// their key through the obfuscator's single keyInput scratch buffer, so only the
+// obfuscator's own lock keeps a write from clobbering the salt slot under a concurrent read
+// (and vice versa). Inbound datagrams are built by the harness with the PROTOCOL.md
+// reference (specObf) and must come out intact exactly once; every outbound wire datagram
+// must be specObf of its payload under the salt it carries.
+func runDuplex(f []string) vh.Result {
+	variant := f[1]
+	seed, _ := strconv.ParseInt(f[2], 10, 64)
+	keyLen, _ := strconv.Atoi(f[3])
+	N, _ := strconv.Atoi(f[4])
+	maxLen, _ := strconv.Atoi(f[5])
+	if N > 20000 || keyLen < 4 || maxLen < 1 || maxLen > 2040 {
+		return vh.Result{Out: "bad-op"}
+	}
+	r := vh.NewRNG(uint64(seed))
+	key := r.Bytes(keyLen)
+	if prev := runtime.GOMAXPROCS(0); prev < 4 {
+		runtime.GOMAXPROCS(4)
+		defer runtime.GOMAXPROCS(prev)
+	}
+	m := newMem()
+	S, err := obfs.WrapPacketConnSalamander(innerOf(variant, m), key)
+	if err != nil {
+		return vh.Result{Out: "refused", Oracle: []string{"PSK refused"}}
+	}
+	obfs.VerifC13SetRand(S, seed)
+	inPay := make([][]byte, N)
+	outPay := make([][]byte, N)
+	var min []string
+	for k := 0; k < N; k++ {
+		inPay[k] = r.Bytes(r.Range(1, maxLen))
+		outPay[k] = r.Bytes(r.Range(1, maxLen))
+		w := specObf(key, r.Bytes(8), inPay[k])
+		m.q = append(m.q, dgram{data: w, port: k + 1})
+		min = append(min, fmt.Sprintf("%s@%d", vh.Hex(w), k+1))
+	}
+	var orc []string
+	var got []delivery
+	var wcounts []int
+	var werrs int
+	start := make(chan struct{})
+	var wg sync.WaitGroup
+	wg.Add(2)
+	go func() { // receive loop
+		defer wg.Done()
+		buf := make([]byte, 2048)
+		<-start
+		for {
+			n, addr, err := S.ReadFrom(buf)
+			if err != nil {
+				return
+			}
+			got = append(got, delivery{n, addr.(*net.UDPAddr).Port, false, append([]byte{}, buf[:n]...)})
+		}
+	}()
+	go func() { // send loop
+		defer wg.Done()
+		<-start
+		for k := 0; k < N; k++ {
+			n, err := S.WriteTo(outPay[k], &net.UDPAddr{IP: net.IPv4(127, 0, 0, 1), Port: k + 1})
+			wcounts = append(wcounts, n)
+			if err != nil {
+				werrs++
+			}
+		}
+	}()
+	close(start)
+	wg.Wait()
+
+	// inbound: exactly once, in order, intact
+	if len(got) != N {
+		orc = append(orc, fmt.Sprintf("%d datagrams from the peer, %d ReadFrom results", N, len(got)))
+	}
+	badIn := 0
+	for i, d := range got {
+		if i >= N {
+			break
+		}
+		if d.addr != i+1 || d.n != len(inPay[i]) || !bytes.Equal(d.payload, inPay[i]) {
+			if badIn == 0 {
+				orc = append(orc, fmt.Sprintf("a packet from the peer (%d bytes, #%d) was delivered altered while a write was in progress (n=%d)", len(inPay[i]), i+1, d.n))
+			}
+			badIn++
+		}
+	}
+	// outbound: counts and wire format
+	if len(m.sent) != N || werrs != 0 {
+		orc = append(orc, fmt.Sprintf("%d WriteTo calls made %d inner writes, %d errors", N, len(m.sent), werrs))
+	}
+	badOut := 0
+	var mout []string
+	h := uint64(0xcbf29ce484222325)
+	for k, d := range m.sent {
+		if k >= N {
+			break
+		}
+		h = fnv64(h, be32(len(d.data)))
+		h = fnv64(h, d.data)
+		salt := []byte{}
+		if len(d.data) >= 8 {
+			salt = d.data[:8]
+		}
+		mout = append(mout, vh.Hex(salt)+":"+vh.Hex(outPay[k]))
+		if wcounts[k] != len(outPay[k]) {
+			orc = append(orc, fmt.Sprintf("WriteTo of %d bytes returned %d", len(outPay[k]), wcounts[k]))
+		}
+		if len(d.data) != len(outPay[k])+8 || !bytes.Equal(d.data, specObf(key, salt, outPay[k])) {
+			if badOut == 0 {
+				orc = append(orc, fmt.Sprintf("outbound datagram #%d written while a read was in progress is not salt ‖ payload XOR BLAKE2b-256(key ‖ salt)[i %% 32]", k+1))
+			}
+			badOut++
+		}
+	}
+	if badIn+badOut > 0 {
+		orc = append(orc, fmt.Sprintf("%d of %d inbound and %d of %d outbound packets wrong", badIn, N, badOut, N))
+	}
+	if len(orc) > 5 {
+		orc = orc[:5]
+	}
+	return vh.Result{Out: fmt.Sprintf("duplex in=%d:%016x out=%d:%016x", len(got), digest(got), len(m.sent), h),
+		ModelOp: fmt.Sprintf("duplex %s 2048 %s %s", vh.Hex(key), listOr(min), listOr(mout)), NonTrivial: true, Oracle: orc}
 }
